@@ -1,4 +1,5 @@
 //! Rust-side engines (exhaustive enumerations with in-Rust reference models) and shared helpers.
+pub mod c09;
 pub mod c11;
 pub mod c14;
 pub mod c15;
